@@ -74,6 +74,7 @@ structure DevRel (dc du : Dev) : Prop where
   noAccess : dc.noAccess = du.noAccess
   noWrite : dc.noWrite = du.noWrite
   rejW : dc.rejW = du.rejW
+  rejP : dc.rejP = du.rejP
   wcount : dc.wcount = du.wcount
   log : LogSub dc.log du.log
 
